@@ -38,8 +38,9 @@ type Writer struct {
 	writtenMeshData attributeIndices // Tracks and deduplicate written mesh data
 	textureIndices  textureIndices   // Tracks and deduplicates unique textures
 
-	skins      []Skin
-	animations []Animation
+	skins       []Skin
+	animations  []Animation
+	skinIndices map[*animation.Skeleton]skinEntry // Tracks skeletons already written (shared between models)
 
 	textures     []Texture
 	images       []Image
@@ -52,6 +53,12 @@ type Writer struct {
 
 	extensionsUsed     map[string]bool
 	extensionsRequired map[string]bool
+}
+
+// skinEntry remembers where a skeleton was written
+type skinEntry struct {
+	skin int // index into skins
+	root int // node of joint 0
 }
 
 func NewWriter() *Writer {
@@ -406,9 +413,18 @@ func (w *Writer) AddScene(scene PolyformScene) error {
 		skinNode := nodeIndex
 		// Handle any skeleton/animation data
 		if model.Skeleton != nil {
-			var skinIndex *int
-			skinIndex, skinNode = w.AddSkin(*model.Skeleton)
-			w.nodes[nodeIndex].Skin = skinIndex
+			// a skeleton several models point to is written once, they share the skin
+			entry, written := w.skinIndices[model.Skeleton]
+			if !written {
+				skinIndex, rootNode := w.AddSkin(*model.Skeleton)
+				entry = skinEntry{skin: *skinIndex, root: rootNode}
+				if w.skinIndices == nil {
+					w.skinIndices = make(map[*animation.Skeleton]skinEntry)
+				}
+				w.skinIndices[model.Skeleton] = entry
+			}
+			w.nodes[nodeIndex].Skin = ptrI(entry.skin)
+			skinNode = entry.root
 		}
 
 		if len(model.Animations) > 0 {
